@@ -3,6 +3,7 @@ runs bin/dippy-statusline in this process with open()/os.rename() of the *sessio
 the process SIGKILLs itself at one chosen point of the cache write.
 
 usage: c20_killwrap.py <script> <point>     point in before_open | after_open | mid_write | after_close | after_rename
+       | pause_mid_write (no kill: the write is split in two with a pause, so that another process overlaps it)
 Only files whose path contains "/claude-statusline/" and does not contain "mcp.cache" are instrumented."""
 import builtins
 import os
@@ -38,6 +39,13 @@ class Proxy:
             self._f.write(half)
             self._f.flush()
             die()
+        if point == "pause_mid_write":
+            import time
+            half = text[: max(1, len(text) // 2)]
+            self._f.write(half)
+            self._f.flush()
+            time.sleep(0.7)
+            return self._f.write(text[len(half):]) + len(half)
         return self._f.write(text)
 
     def __enter__(self):
